@@ -310,13 +310,19 @@ func (p *parser) parseScheduleEvent(pos *Pos, n *yaml.Node) *ScheduledEvent {
 	cron := make([]*String, 0, len(n.Content))
 	for _, c := range n.Content {
 		m := p.parseMapping("element of \"schedule\" section", c, false, true)
-		if len(m) != 1 || m[0].id != "cron" {
-			p.error(c, "element of \"schedule\" section must be mapping and must contain one key \"cron\"")
-			continue
+		var found bool
+		for _, kv := range m {
+			if kv.id != "cron" {
+				continue
+			}
+			found = true
+			// Even if the element has some unexpected keys, the "cron" value should still be checked
+			if s := p.parseString(kv.val, false); s != nil {
+				cron = append(cron, s)
+			}
 		}
-		s := p.parseString(m[0].val, false)
-		if s != nil {
-			cron = append(cron, s)
+		if len(m) != 1 || !found {
+			p.error(c, "element of \"schedule\" section must be mapping and must contain one key \"cron\"")
 		}
 	}
 
